@@ -7,7 +7,7 @@ T = {
  "C18a": ("C18", "block sequence that skips the notification window of a whole epoch, then >=2 qualifying blocks in a later epoch", "C18: monitor 'spurious notification' (+ correspondence)"),
  "C18b": ("C18", "epoch length N in {3,7,19,27,63} with a percentage above (N-1)/N (float rounding one ulp)", "C18: monitor 'missing notification' (exhaustive small N x all P)"),
  "C19a": ("C19", "non-mainnet global index with rollup index >= 2^31", "C19: monitor 'roundtrip' at the boundary value 2^31"),
- "C19b": ("C19", "certificate with >=2 differing imported bridge exits (aliased chunk buffer in FEPHashToSign)", None),
+ "C19b": ("C19", "certificate with >=2 differing imported bridge exits (aliased chunk buffer in FEPHashToSign)", "C19 and C10: certcodec correspondence (FEP commitment byte for byte) + monitor 'the FEP commitment differs from the reference' + perturbation monitors"),
  "C17a": ("C17", "a prefix whose estimated size equals the limit exactly", "C17: monitor 'stopped although the prefix fits' (limits drawn at exact prefix sizes)"),
  "C17b": ("C17", "argument range ending at 2^64-1 and receiver starting at block >= 2", "C17: proof obligation on the regenerated Gap breaks + monitor 'gap reported between touching/overlapping ranges'"),
  "C20a": ("C20", "two claims in one transaction whose global indexes differ only above bit 63", "C20: monitor (field-by-field) with 2^64+k vs k indexes"),
@@ -30,6 +30,20 @@ T = {
  "C15b": ("C15", "syncer strictly ahead of the sampled finalized block with an info update in between", "C15: oracle monitor 'not the most recent root at or below any finalized block sampled' (real l1infotreesync processor behind the oracle)"),
  "C05a": ("C05", "a range past the finalized pointer holding >=2 event blocks", "C05: downloader monitor 'handed over after … / twice' (+ correspondence)"),
  "C05b": ("C05", "eth_getLogs failing with a wrapped DeadlineExceeded on a range with watched logs", "C05: downloader monitor 'handed over with events [] …' (scripted transient eth_getLogs failures incl. request timeouts)"),
+ "C02a": ("C02", "KeepCertificatesHistory, an InError certificate, its replacement InError again, a third submission (history key collides; the save fails after the submission)", "C02: aggsender monitor 'submitted while certificate … is still undecided' (+ correspondence: stored retry count)"),
+ "C02b": ("C02", "an InError certificate, its replacement, InError again, next replacement", "C02: aggsender monitor 'starts from exit root …, expected …' (+ C03 root monitor, correspondence on the stored previous root)"),
+ "C03a": ("C03", "a native-token bridge (zero origin address on network 0) with non-empty metadata", "C03: aggsender monitor 'bridge exit … differs from the bridge event: metadata hash' + root monitor"),
+ "C03b": ("C03", "Agglayer headers without previous exit root; a certificate at height >= 1 rebuilt from a header at start-up, then InError, then replaced", "C03: aggsender monitor 'appending its exits to the tree of its previous exit root does not give its new exit root' (directed prelude in header-without-prev worlds) + correspondence"),
+ "C10a": ("C10", "FEP commitment of a certificate with >= 2 differing imported exits", "C10: certcodec correspondence + monitors 'FEP commitment differs from the reference' / 'changing the imported exit[0] … does not change the FEP commitment'"),
+ "C10b": ("C10", "an exit with empty metadata on the wire", "C10: certcodec monitors 'wire exit differs from the bridge event: metadata (expected none)' and 'exit leaf recomputed from the wire message differs'; aggsender wire monitors"),
+ "C13a": ("C13", "a certificate rebuilt from the Agglayer header at start-up (crash between submit and store, or lost database), then the next certificate", "C13: aggsender monitor 'certificate … starts at block …, expected …' on the first certificate after a restart + correspondence on the rebuilt row"),
+ "C13b": ("C13", "a statement fault on the INSERT of SaveLastSentCertificate when a row of that height exists", "C13: aggsender monitor 'a failed SaveLastSentCertificate changed the stored records' (SQL-trigger faults on each statement of the save)"),
+ "C06a": ("C06", "restart of a subscriber that tracked blocks in an earlier run", None),
+ "C06b": ("C06", "notification ordering around the removal of tracked blocks", None),
+ "C09a": ("C09", "two info updates in one L1 block followed by one in a later block, claims against the newer leaves", None),
+ "C09b": ("C09", "a rollup-origin claim with leaf index >= 2", None),
+ "C12a": ("C12", "bridge followed by several info updates; first covering index is not the first leaf", None),
+ "C12b": ("C12", "tree node storage stops early (storeNodes break)", None),
 }
 for d in sorted(os.listdir(S)):
     p = os.path.join(S, d)
